@@ -141,6 +141,19 @@ class TemplateInterp:
 
     def ev_call(self, node, st):
         f = node.func
+        if isinstance(f, ast.Name) and f.id == 'map' and len(node.args) == 2 and not node.keywords and 'map' not in st.env:
+            # map(g, xs) consumed as a sequence == [g(x) for x in xs]
+            fn = node.args[0]
+            if isinstance(fn, ast.Lambda) and len(fn.args.args) == 1:
+                elt, var = fn.body, fn.args.args[0].arg
+            else:
+                var = '_map_item'
+                elt = ast.Call(func=fn, args=[ast.Name(id=var, ctx=ast.Load())], keywords=[])
+            comp = ast.ListComp(elt=elt, generators=[ast.comprehension(target=ast.Name(id=var, ctx=ast.Store()),
+                                                                       iter=node.args[1], ifs=[], is_async=0)])
+            ast.copy_location(comp, node)
+            ast.fix_missing_locations(comp)
+            return self.ev(comp, st)
         if isinstance(f, ast.Attribute) and f.attr == 'format':
             tmpl = self.ev(f.value, st)
             if tmpl[0] != 'str':
